@@ -509,6 +509,6 @@ impl Family for FramesFamily {
         out.into_iter().map(|s| serde_json::to_value(s).unwrap()).collect()
     }
     fn watchdog_ms(&self) -> u64 {
-        180_000
+        90_000
     }
 }
